@@ -217,7 +217,17 @@ func (v *FnVC) exec(fr *frame, st *State, ins ssa.Instruction) {
 		}
 		v.sc.Assert(Not(reach))
 	case *ssa.RunDefers:
+		// the deferred calls that were registered unconditionally run here, last registered first
+		for i := len(fr.defers) - 1; i >= 0; i-- {
+			v.call(fr, st, fr.defers[i])
+		}
 	case *ssa.Defer:
+		if deferRunsAtEveryExit(x) {
+			// registered exactly once before any exit: the call happens at each RunDefers (its operands are SSA
+			// values, fixed at registration; what it reads through pointers and captured variables is read then)
+			fr.defers = append(fr.defers, x)
+			break
+		}
 		v.note("deferred calls are not modelled")
 		if fr.top {
 			// deferred library calls (Close, Chdir) do not touch module-visible heap; anything else deferred in a
@@ -408,9 +418,13 @@ func (v *FnVC) lookup(fr *frame, st *State, x *ssa.Lookup, reach Term) Val {
 	key, ok := v.mapKeyTerm(v.value(fr, x.Index), mt.Key())
 	var val Val
 	var in Term
-	if !ok || !v.mapValueSupported(mt) {
+	if !ok {
 		val = v.freshTyped("lookup", mt.Elem(), st, reach)
 		in = v.sc.Fresh("lookup.ok", SBool)
+	} else if !v.mapValueSupported(mt) {
+		dom, _ := v.mapParts(st, mt, m)
+		in = v.sc.Define("indom", And(Not(Eq(m, tZero)), Select(dom, key, SBool)))
+		val = valIte(in, v.freshTyped("lookup", mt.Elem(), st, reach), zeroVal(mt.Elem(), v.sc), mt.Elem())
 	} else {
 		dom, _ := v.mapParts(st, mt, m)
 		in = v.sc.Define("indom", And(Not(Eq(m, tZero)), Select(dom, key, SBool)))
@@ -429,13 +443,23 @@ func (v *FnVC) mapUpdate(fr *frame, st *State, x *ssa.MapUpdate) {
 	m := v.value(fr, x.Map).(Sc).T
 	v.safe(fr, "nilmap", x, Not(Eq(m, tZero)))
 	key, ok := v.mapKeyTerm(v.value(fr, x.Key), mt.Key())
-	if !ok || !v.mapValueSupported(mt) {
+	if !ok {
 		tmp := map[string]Sort{}
 		mapFams(mt, tmp)
 		for f, s := range tmp {
 			v.he.havocFam(st, f, s)
 		}
 		return
+	}
+	if !v.mapValueSupported(mt) {
+		// values of this shape are not modelled: the key set and the length still are
+		tmp := map[string]Sort{}
+		mapFams(mt, tmp)
+		for f, s := range tmp {
+			if strings.HasPrefix(f, famMap("MV", mt)) {
+				v.he.havocFam(st, f, s)
+			}
+		}
 	}
 	ks := mapKeySort(mt.Key())
 	dsort := Sort("(Array Int (Array " + string(ks) + " Bool))")
@@ -445,6 +469,9 @@ func (v *FnVC) mapUpdate(fr *frame, st *State, x *ssa.MapUpdate) {
 	v.he.set(st, famMap("MD", mt), Store(d, m, Store(dom, key, tTrue)))
 	l := v.he.get(st, famMap("ML", mt), arrSort(SInt))
 	v.he.set(st, famMap("ML", mt), Store(l, m, Ite(was, Select(l, m, SInt), Add(Select(l, m, SInt), IntLit(1)))))
+	if !v.mapValueSupported(mt) {
+		return
+	}
 	et := mt.Elem()
 	var sorts []Sort
 	if kindOf(et) == kScalar || kindOf(et) == kFunc {
@@ -490,6 +517,10 @@ func (v *FnVC) next(fr *frame, st *State, x *ssa.Next, reach Term) Val {
 		v.sc.Assert(Implies(And(reach, ok), And(Not(Eq(m, tZero)), Select(dom, keyT, SBool))))
 		val = v.mapRead(st, mt, m, keyT, reach)
 		v.assumeTyped(val, mt.Elem(), st, And(reach, ok))
+	} else if kok {
+		dom, _ := v.mapParts(st, mt, m)
+		v.sc.Assert(Implies(And(reach, ok), And(Not(Eq(m, tZero)), Select(dom, keyT, SBool))))
+		val = v.freshTyped("next.v", mt.Elem(), st, reach)
 	} else {
 		val = v.freshTyped("next.v", mt.Elem(), st, reach)
 	}
@@ -981,7 +1012,7 @@ func (v *FnVC) childInvariants(fr *frame, st *State, x *ssa.UnOp, res Val, reach
 		env := &specEnv{v: v, fr: v.top, st: st, old: st, bound: map[string]specVal{
 			ci.Child:  {V: child, T: x.Type()},
 			ci.Parent: {V: parent, T: fa.X.Type()},
-		}, specPkg: v.w.pkgByShort(ci.Clause.Pkg)}
+		}, specPkg: v.w.pkgByShort(ci.Clause.Pkg), pol: -1}
 		env.guard = reach
 		body := env.evalBool(ci.Clause.Expr)
 		v.inTypeInv = false
@@ -1018,4 +1049,57 @@ func (v *FnVC) assumeConstStringSet(g *ssa.Global, m Val, st *State, guard Term)
 	q := fmt.Sprintf("(forall ((csk String)) (! (= (select %s csk) %s) :pattern ((select %s csk))))", dom.S, body, dom.S)
 	v.sc.Assert(Implies(guard, And(Not(Eq(ms.T, tZero)), Term{q, SBool})))
 	v.note("package-level table " + g.Name() + " is only written by its initialiser (checked on the SSA): its keys are the literal's")
+}
+
+// deferRunsAtEveryExit: the defer statement sits outside every loop in a block that dominates every exit of the
+// function (every RunDefers), so the deferred call is registered exactly once on every path that returns normally.
+// What a panic would do (run the deferred calls, then the Recover block) is not modelled: panics are obligations.
+func deferRunsAtEveryExit(d *ssa.Defer) bool {
+	fn := d.Parent()
+	if fn == nil || d.Call.IsInvoke() {
+		return false
+	}
+	if d.Call.StaticCallee() == nil {
+		return false
+	}
+	db := d.Block()
+	for _, b := range fn.Blocks {
+		for _, s := range b.Succs {
+			if isBackEdge(b, s) {
+				// db inside the loop s..b ?
+				if s.Dominates(db) && blockReaches(db, b) {
+					return false
+				}
+			}
+		}
+		for _, ins := range b.Instrs {
+			if _, ok := ins.(*ssa.RunDefers); ok {
+				if b != db && !db.Dominates(b) {
+					return false
+				}
+			}
+		}
+	}
+	return true
+}
+
+func blockReaches(from, to *ssa.BasicBlock) bool {
+	seen := map[int]bool{}
+	var dfs func(b *ssa.BasicBlock) bool
+	dfs = func(b *ssa.BasicBlock) bool {
+		if b == to {
+			return true
+		}
+		if seen[b.Index] {
+			return false
+		}
+		seen[b.Index] = true
+		for _, s := range b.Succs {
+			if dfs(s) {
+				return true
+			}
+		}
+		return false
+	}
+	return dfs(from)
 }
